@@ -33,7 +33,7 @@ import gen_kernels
 REPO = gen_kernels.REPO
 SRC = os.path.join(REPO, "streamz", "dataframe", "aggregations.py")
 SCRATCH = os.path.join(common.BUILD, "aggs_acceptance")
-BRIDGES = ["BridgeAggs", "BridgeAggsWindow", "BridgeAggsVec"]
+BRIDGES = ["BridgeAggs", "BridgeAggsWindow", "BridgeAggsVec", "BridgeAggsIloc"]
 
 # ---------------------------------------------------------------------------------------------------------------- edits
 SUM_NEW = """        if len(new):
@@ -78,6 +78,17 @@ VAR_OLD = """        x, x2, n = acc
             n = n - new.count()
 
         return (x, x2, n), self._compute_result(x, x2, n)
+"""
+
+ILOC = """        while n > 0:
+            if len(dfs[0]) <= n:
+                df = dfs.popleft()
+                old.append(df)
+                n -= len(df)
+            else:
+                old.append(dfs[0].iloc[:n])
+                dfs[0] = dfs[0].iloc[n:]
+                n = 0
 """
 
 # (id, kind, what, [(old text, new text)])      every old text must occur exactly once
@@ -176,6 +187,31 @@ EDITS = [
 
         return (sx, sxx, cnt), self._compute_result(sx, sxx, cnt)
 """)]),
+    ("h26", "harmless", "diff_iloc: `while 0 < n`", [(ILOC, ILOC.replace("while n > 0:", "while 0 < n:"))]),
+    ("h27", "harmless", "diff_iloc: `n = n - len(df)`", [(ILOC, ILOC.replace("n -= len(df)", "n = n - len(df)"))]),
+    ("h28", "harmless", "diff_iloc: `n >= len(dfs[0])`", [(ILOC, ILOC.replace("if len(dfs[0]) <= n:", "if n >= len(dfs[0]):"))]),
+    ("h29", "harmless", "diff_iloc: local renamed, length taken before the pop", [(ILOC, """        while n > 0:
+            if len(dfs[0]) <= n:
+                k = len(dfs[0])
+                head = dfs.popleft()
+                old.append(head)
+                n -= k
+            else:
+                old.append(dfs[0].iloc[:n])
+                dfs[0] = dfs[0].iloc[n:]
+                n = 0
+""")]),
+    ("h30", "harmless", "diff_iloc: a local for the oldest frame in the slicing branch", [(ILOC, """        while n > 0:
+            if len(dfs[0]) <= n:
+                df = dfs.popleft()
+                old.append(df)
+                n -= len(df)
+            else:
+                first = dfs[0]
+                old.append(first.iloc[:n])
+                dfs[0] = first.iloc[n:]
+                n = 0
+""")]),
     # ------------------------------------------------------------------------------------------------------ harmful
     ("m01", "harmful", "Sum.on_old adds instead of subtracting", [("result = acc - old.sum()", "result = acc + old.sum()")]),
     ("m02", "harmful", "Count.on_old: len(old) for old.count() (NaN rows counted)", [("result = acc - old.count()", "result = acc - len(old)")]),
@@ -226,6 +262,12 @@ EDITS = [
     ("m30", "harmful", "Var.__init__: ddof shifted by one", [("    def __init__(self, ddof=1):\n        self.ddof = ddof\n", "    def __init__(self, ddof=1):\n        self.ddof = ddof + 1\n")]),
     ("m31", "harmful", "Sum.on_old: the state is updated in place (`acc[:] = ...`) on a DataFrame stream",
      [("        result = acc - old.sum()\n        return result, result", "        result = acc - old.sum()\n        if not isinstance(acc, Number):\n            acc[:] = 0\n        return result, result")]),
+    ("m32", "harmful", "diff_iloc: a frame of exactly n rows is sliced, an empty frame stays in the deque", [(ILOC, ILOC.replace("if len(dfs[0]) <= n:", "if len(dfs[0]) < n:"))]),
+    ("m33", "harmful", "diff_iloc: n not reset after the slice", [(ILOC, ILOC.replace("                dfs[0] = dfs[0].iloc[n:]\n                n = 0\n", "                dfs[0] = dfs[0].iloc[n:]\n"))]),
+    ("m34", "harmful", "diff_iloc: one row too many decays", [("        n = sum(map(len, dfs)) - window\n        while n > 0:", "        n = sum(map(len, dfs)) - window + 1\n        while n > 0:")]),
+    ("m35", "harmful", "diff_iloc: the two slices swapped", [(ILOC, ILOC.replace("old.append(dfs[0].iloc[:n])\n                dfs[0] = dfs[0].iloc[n:]", "old.append(dfs[0].iloc[n:])\n                dfs[0] = dfs[0].iloc[:n]"))]),
+    ("m36", "harmful", "diff_iloc: whole frames leave without being handed to on_old", [(ILOC, ILOC.replace("                old.append(df)\n", ""))]),
+    ("m37", "harmful", "diff_iloc: the count of the popped frame is not subtracted", [(ILOC, ILOC.replace("                n -= len(df)\n", "                n -= 1\n"))]),
     ("m28", "harmful", "Sum.on_new: `if len(new)` guard dropped (a batch without columns poisons the state)", [(SUM_NEW, """        result = acc + new.sum()
         return result, result
 """)]),
@@ -322,6 +364,10 @@ def behaviour(mod):
         for d in (0, 1, 2):
             out.append((("compute", n, d), attempt(lambda n=n, d=d: mod.Var(ddof=d)._compute_result(np.float64(6.0), np.float64(20.0), np.int64(n)))))
             out.append((("compute-int", n, d), attempt(lambda n=n, d=d: mod.Var(ddof=d)._compute_result(0, 0, n))))
+    for i in (0, 2, 4):
+        for w in range(0, 9):
+            out.append((("diff_iloc", i, w), attempt(lambda i=i, w=w: mod.diff_iloc([ser[1], ser[3]], ser[i], window=w))))
+    out.append((("diff_iloc", "empty"), attempt(lambda: mod.diff_iloc([], ser[0], window=2))))
     for i in (0, 1, 4):
         out.append((("diff_expanding", i), attempt(lambda i=i: mod.diff_expanding([ser[1]], ser[i] if i < 4 else ser[4]))))
     return out
